@@ -910,10 +910,15 @@ func (g *gen) applyCall(val ssa.Value, c *ssa.CallCommon, full, short string, or
 	if g.callReach == nil {
 		g.callReach = map[string]string{}
 	}
+	if g.callBlock == nil {
+		g.callBlock = map[string]*ssa.BasicBlock{}
+	}
 	g.callReach[fmt.Sprintf("%s#%d", short, ord)] = g.curReach
+	g.callBlock[fmt.Sprintf("%s#%d", short, ord)] = g.curBlock
 	if q := qualShort(full); q != "" {
 		g.callArgsRec[fmt.Sprintf("%s#%d", q, ord)] = argT
 		g.callReach[fmt.Sprintf("%s#%d", q, ord)] = g.curReach
+		g.callBlock[fmt.Sprintf("%s#%d", q, ord)] = g.curBlock
 	}
 	// in-body assertions anchored before this call
 	g.anchoredAsserts(full, short, ord, false, nil, argT, pos)
